@@ -2,7 +2,7 @@
    [run opcode argument].  Extracted to OCaml (bin/dlms_model) and also evaluated in the
    kernel by generated cases files.  Opcode names are parsed from the comments below by
    harness/lib.py — keep the format  "| <n> (* <name> *) =>". *)
-From Dlms Require Import Base CrcModel CrcSpec FieldsModel FieldsSpec AddrModel AddrSpec WrapperModel WrapperProofs TimeModel TimeProofs AxdrModel AxdrSpec AxdrProofs FrameModel FrameProofs.
+From Dlms Require Import Base CrcModel CrcSpec FieldsModel FieldsSpec AddrModel AddrSpec WrapperModel WrapperProofs TimeModel TimeProofs AxdrModel AxdrSpec AxdrProofs FrameModel FrameProofs HdlcConnModel HdlcScript HdlcLinkProofs.
 
 Definition v_bools (l : list bool) : V := VList (map VBool l).
 Definition as_bools (v : V) : list bool := map as_b (as_list v).
@@ -77,6 +77,32 @@ Definition as_optbytes (v : V) : option bytes := match v with VBytes l => Some l
 Definition v_frame (f : frame) : V :=
   VList [v_addr (f_dest f); v_addr (f_src f); v_opt VBytes (f_payload f); VBool (f_segmented f);
          VBool (f_final f); VN (f_ssn f); VN (f_rsn f)].
+
+Definition as_frame (a : V) (off : nat) : frame :=
+  {| f_dest := as_addr (arg off a); f_src := as_addr (arg (off + 1) a); f_payload := as_optbytes (arg (off + 2) a);
+     f_segmented := as_b (arg (off + 3) a); f_final := as_b (arg (off + 4) a);
+     f_ssn := as_n (arg (off + 5) a); f_rsn := as_n (arg (off + 6) a) |}.
+Definition as_link (a : V) (off : nat) : link :=
+  {| l_state := as_n (arg off a); client_ssn := as_n (arg (off + 1) a); client_rsn := as_n (arg (off + 2) a);
+     server_ssn := as_n (arg (off + 3) a); server_rsn := as_n (arg (off + 4) a) |}.
+(* one scripted operation on a connection: [0; bytes] receive_data, [1] next_event,
+   [2; client; server] drain, [3; kind; frame...] send, [4; link...] force the link state *)
+Definition script_step (c : conn) (o : V) : V * conn :=
+  let code := as_n (arg 0 o) in
+  if code =? 0 then let c' := receive_data c (as_bytes (arg 1 o)) in (snapshot c', c')
+  else if code =? 1 then let '(e, c') := next_event c in (VList [v_event e; snapshot c'], c')
+  else if code =? 2 then
+    let '(evs, c') := drain (length (c_buf c) + 4) c (as_addr (arg 1 o)) (as_addr (arg 2 o)) [] in
+    (VList [VList evs; snapshot c'], c')
+  else if code =? 3 then
+    let '(r, c') := conn_send c (as_kind (arg 1 o)) (as_frame o 2) in (VList [v_res VBytes r; snapshot c'], c')
+  else
+    let c' := {| c_link := as_link o 1; c_buf := c_buf c; c_pos := c_pos c |} in (snapshot c', c').
+Fixpoint script_run (c : conn) (ops : list V) : list V :=
+  match ops with
+  | [] => []
+  | o :: r => let '(out, c') := script_step c o in out :: script_run c' r
+  end.
 
 Definition run (op : N) (a : V) : V :=
   match op with
@@ -179,5 +205,15 @@ Definition run (op : N) (a : V) : V :=
                   f_segmented := as_b (arg 4 a); f_final := as_b (arg 5 a);
                   f_ssn := as_n (arg 6 a); f_rsn := as_n (arg 7 a) |} in
       VList [VBytes (std_frame (as_kind (arg 0 a)) f); VBool (std_length (as_kind (arg 0 a)) f <=? 2047)]
+  (* ---- HDLC link and receive path (C11, C10) ---- *)
+  | 110 (* link_step *) =>
+      let l := as_link a 0 in
+      let d := if as_n (arg 5 a) =? 0 then DSend else DRecv in
+      let '(r, l') := link_step l d (as_kind (arg 6 a)) (as_n (arg 7 a)) (as_n (arg 8 a)) in
+      VList [v_res (fun _ => VBool true) r; VList (v_link l')]
+  | 111 (* conn_script *) => VList (script_run conn_init (as_list a))
+  | 112 (* spec_nrm *) =>
+      let d := if as_n (arg 1 a) =? 0 then DSend else DRecv in
+      VList [v_optn (nrm_must (as_n (arg 0 a)) d (as_kind (arg 2 a))); v_optn (nrm_may (as_n (arg 0 a)) d (as_kind (arg 2 a)))]
   | _ => bad_args
   end.
